@@ -86,7 +86,7 @@ def statements(body):
 # expressions
 # ------------------------------------------------------------------------------------------------
 TOK = re.compile(r"\s*(?:(\d+)|([A-Za-z_]\w*)|(==|!=|<=|>=|&&|\|\||[-+*/<>!()]))")
-IVARS = {"low", "high", "probe", "size", "elem", "glob", "g1", "g2", "a1", "a2", "nOld", "nNew"}
+IVARS = {"low", "high", "probe", "size", "elem", "glob", "g1", "g2", "a1", "a2", "nOld", "nNew", "index", "locNo", "tsize"}
 BVARS = {"del", "cmp12", "cmp21", "oldDeleted"}
 
 
@@ -314,6 +314,17 @@ class Out:
         except (TranslateError, IndexError, KeyError, AttributeError, ValueError) as ex:
             self.unparsed.append("%s (%s)" % (name, str(ex)[:120].replace('"', "'")))
             txt = canonical_text
+        if txt != canonical_text:
+            self.rewritten.append(name)
+        self.lines.append("def %s : %s :=\n  %s\n" % (name, typ, txt))
+
+    def loud(self, name, typ, fn, canonical_text, failed_text):
+        """like piece(), but a fragment that cannot be read is emitted as `failed_text` (no canonical fallback)"""
+        try:
+            txt = fn()
+        except (TranslateError, IndexError, KeyError, AttributeError, ValueError, StopIteration) as ex:
+            self.unparsed.append("%s (%s)" % (name, str(ex)[:120].replace('"', "'")))
+            txt = failed_text
         if txt != canonical_text:
             self.rewritten.append(name)
         self.lines.append("def %s : %s :=\n  %s\n" % (name, typ, txt))
@@ -572,6 +583,286 @@ def return_expr(body):
     return m.group(1)
 
 
+
+# ---- round four: straight-line control flow -------------------------------------------------------------
+def split_statements(body):
+    """top-level statements: split at `;` outside parentheses/braces; a `}` that closes a top-level block ends a statement"""
+    out, cur, par, br = [], "", 0, 0
+    for ch in body:
+        cur += ch
+        if ch == "(":
+            par += 1
+        elif ch == ")":
+            par -= 1
+        elif ch == "{":
+            br += 1
+        elif ch == "}":
+            br -= 1
+            if br == 0 and par == 0:
+                out.append(cur.strip())
+                cur = ""
+        elif ch == ";" and par == 0 and br == 0:
+            out.append(cur.strip().rstrip(";").strip())
+            cur = ""
+    if cur.strip():
+        out.append(cur.strip())
+    return [x for x in out if x]
+
+
+def is_state_check(st):
+    return bool(re.match(r"^if\s*\(", st)) and "DUNE_THROW" in st and bool(re.search(STATE_ATOM, st))
+
+
+SCALAR_STMT = re.compile(r"^(?:\+\+\s*seqNo_|seqNo_\s*\+\+|seqNo_\s*\+=\s*\d+|seqNo_\s*=\s*seqNo_\s*\+\s*\d+|"
+                         r"(?:this\s*->\s*)?state_\s*=\s*\w+|(?:this\s*->\s*)?deletedEntries_\s*=\s*\w+)$")
+
+
+def calls_of_endresize(body):
+    """the container statements of endResize() in source order -> Lean list of Call"""
+    res = []
+    for st in split_statements(body):
+        if is_state_check(st) or SCALAR_STMT.match(st):
+            continue
+        if re.match(r"^(?:std\s*::\s*)?(?:stable_)?sort\s*\(\s*newIndices_\s*\.\s*begin\s*\(\s*\)\s*,\s*newIndices_\s*\.\s*end\s*\(\s*\)\s*,"
+                    r"\s*IndexSetSortFunctor\s*<[^>]*>\s*(?:\(\s*\)|\{\s*\})\s*\)$", st):
+            res.append(".sortNew")
+        elif re.match(r"^(?:this\s*->\s*)?merge\s*\(\s*\)$", st):
+            res.append(".merge")
+        else:
+            res.append(".unknown")
+    return "[" + ", ".join(res) + "]"
+
+
+def for_parts(st):
+    """`for(HEAD) BODY` -> (head, body statements)"""
+    m = re.match(r"^for\s*\(", st)
+    if not m:
+        raise TranslateError("not a for statement: %r" % st[:40])
+    i = m.end() - 1
+    j = match_close(st, i, "(", ")")
+    head = st[i + 1:j]
+    rest = st[j + 1:].strip()
+    if rest.startswith("{"):
+        e = match_close(rest, 0, "{", "}")
+        if rest[e + 1:].strip():
+            raise TranslateError("text behind the loop body")
+        inner = split_statements(rest[1:e])
+    else:
+        inner = split_statements(rest)
+    return head, inner
+
+
+def loop_var(head, begin_rx, end_rx, end_names):
+    """-> (name of the loop variable, how an element is written: list of regexes for `the pair`)"""
+    if ";" not in head:  # range-for
+        m = re.match(r"^(?:const\s+)?(?:auto|[\w:<>,\s]+?)\s*(?:const\s*)?&{0,2}\s*(\w+)\s*:\s*(.+)$", head.strip())
+        if not m or not re.match(r"^(?:%s)$" % begin_rx.replace(r"\.\s*begin\s*\(\s*\)", "").replace(r"begin\s*\(\s*\)", r"\*\s*this"), m.group(2).strip()):
+            raise TranslateError("range-for not understood: %r" % head)
+        x = m.group(1)
+        return x, r"\b%s\s*\." % x, []
+    parts = [p.strip() for p in head.split(";")]
+    if len(parts) != 3:
+        raise TranslateError("for head not understood: %r" % head)
+    m = re.match(r"^(?:const\s+)?[\w:<>]+\s+(\w+)\s*=\s*(?:%s)$" % begin_rx, parts[0])
+    if not m:
+        raise TranslateError("loop initialisation not understood: %r" % parts[0])
+    x = m.group(1)
+    m = re.match(r"^%s\s*!=\s*(.+)$" % x, parts[1])
+    if not m:
+        raise TranslateError("loop condition not understood: %r" % parts[1])
+    e = m.group(1).strip()
+    if not (e in end_names or re.match(r"^(?:%s)$" % end_rx, e)):
+        raise TranslateError("loop end not understood: %r" % e)
+    incs = [t.strip() for t in split_params(parts[2])]
+    own = [t for t in incs if re.match(r"^(?:\+\+\s*%s|%s\s*\+\+)$" % (x, x), t)]
+    if len(own) != 1:
+        raise TranslateError("loop increment not understood: %r" % parts[2])
+    others = [t for t in incs if t not in own]
+    return x, r"(?:\b%s\s*->|\(\s*\*\s*%s\s*\)\s*\.)" % (x, x), others
+
+
+def renumber_of(body):
+    sts = split_statements(body)
+    end_names, counters, loop = set(), {}, None
+    for st in sts:
+        if is_state_check(st):
+            continue
+        m = re.match(r"^(?:const\s+)?[\w:<>]+\s+(\w+)\s*=\s*(?:this\s*->\s*)?end\s*\(\s*\)$", st)
+        if m and loop is None:
+            end_names.add(m.group(1))
+            continue
+        m = re.match(r"^(?:std\s*::\s*)?[\w]+\s+(\w+)\s*(?:=\s*(\d+)|\(\s*(\d+)\s*\)|\{\s*(\d+)\s*\})$", st)
+        if m and loop is None:
+            counters[m.group(1)] = int(next(g for g in m.groups()[1:] if g is not None))
+            continue
+        if st.startswith("for") and loop is None:
+            loop = st
+            continue
+        raise TranslateError("statement not understood: %r" % st[:50])
+    if loop is None:
+        raise TranslateError("no loop")
+    head, inner = for_parts(loop)
+    x, elem, others = loop_var(head, r"(?:this\s*->\s*)?begin\s*\(\s*\)", r"(?:this\s*->\s*)?end\s*\(\s*\)", end_names)
+    step, ctr = None, None
+    for t in others:
+        m = re.match(r"^(?:\+\+\s*(\w+)|(\w+)\s*\+\+)$", t)
+        m2 = re.match(r"^(\w+)\s*\+=\s*(\d+)$", t)
+        if m:
+            ctr, step = (m.group(1) or m.group(2)), 1
+        elif m2:
+            ctr, step = m2.group(1), int(m2.group(2))
+        else:
+            raise TranslateError("increment not understood: %r" % t)
+    if len(others) > 1:
+        raise TranslateError("several counters")
+    if len(inner) == 2 and ctr is None:  # { pair->local() = index; ++index; }
+        m = re.match(r"^(?:\+\+\s*(\w+)|(\w+)\s*\+\+)$", inner[1])
+        if not m:
+            raise TranslateError("loop body not understood")
+        ctr, step = (m.group(1) or m.group(2)), 1
+        inner = inner[:1]
+    if len(inner) != 1:
+        raise TranslateError("loop body has %d statements" % len(inner))
+    m = re.match(r"^%s\s*local\s*\(\s*\)\s*=\s*(.+)$" % elem, inner[0])
+    if not m:
+        raise TranslateError("assignment not understood: %r" % inner[0][:50])
+    val = m.group(1)
+    val = re.sub(r"static_cast\s*<[^>]*>", "", val)
+    if ctr is None:  # pair->local() = index++
+        m = re.search(r"\b(\w+)\s*\+\+", val)
+        if not m:
+            raise TranslateError("no counter")
+        ctr, step = m.group(1), 1
+        val = val.replace(m.group(0), " " + ctr + " ")
+    if ctr not in counters:
+        raise TranslateError("counter %s not declared" % ctr)
+    val = re.sub(r"\b%s\b" % ctr, " index ", val)
+    return "some { start := %d, step := %d, value := %s }" % (counters[ctr], step, canon_i(val, "index", grid(index=range(0, 6))))
+
+
+NULLPTR = r"(?:0|nullptr|NULL|static_cast\s*<[^>]*>\s*\(\s*(?:0|nullptr)\s*\))"
+
+
+def ctor_parts(src, nparams):
+    """constructor GlobalLookupIndexSet<I>::GlobalLookupIndexSet(params) : inits { body } with this number of parameters"""
+    for m in re.finditer(r"GlobalLookupIndexSet\s*<\s*\w+\s*>\s*::\s*GlobalLookupIndexSet\s*(?=\()", src):
+        i = m.end()
+        j = match_close(src, i, "(", ")")
+        params = split_params(src[i + 1:j])
+        if len(params) != nparams:
+            continue
+        k = src.index("{", j)
+        inits = src[j + 1:k].strip()
+        if not inits.startswith(":"):
+            raise TranslateError("no member initialisers")
+        e = match_close(src, k, "{", "}")
+        ini = {}
+        for it in split_params(inits[1:]):
+            mm = re.match(r"^\s*(\w+)\s*[\(\{](.*)[\)\}]\s*$", it)
+            if not mm:
+                raise TranslateError("initialiser not understood: %r" % it)
+            ini[mm.group(1)] = mm.group(2).strip()
+        return param_names(src[i + 1:j]), ini, src[k + 1:e]
+    raise TranslateError("constructor with %d parameters not found" % nparams)
+
+
+def table_ctor_of(src, nparams):
+    names, ini, body = ctor_parts(src, nparams)
+    if "size_" not in ini:
+        raise TranslateError("size_ not initialised")
+    szname = names[1] if nparams == 2 else None
+    t = ini["size_"]
+    if szname:
+        t = re.sub(r"\b%s\b" % szname, " tsize ", t)
+    size_init = canon_i(t, "tsize" if szname else "0", grid(tsize=range(0, 5)))
+    cur = "size"       # size_ in terms of its value behind the max loop
+    cells = None
+    if "indices_" in ini:
+        a = split_params(ini["indices_"])
+        if len(a) != 2 or not re.match(r"^\s*%s\s*$" % NULLPTR, a[1]):
+            raise TranslateError("indices_ initialiser not understood")
+        c = re.sub(r"\bsize_\b", " size ", a[0])
+        if szname:
+            c = re.sub(r"\b%s\b" % szname, " size ", c)
+        cells = c
+    fold, slot = None, None
+    end_names = set()
+    BEGIN = r"indexSet_\s*\.\s*begin\s*\(\s*\)|indexset\s*\.\s*begin\s*\(\s*\)"
+    END = r"indexSet_\s*\.\s*end\s*\(\s*\)|indexset\s*\.\s*end\s*\(\s*\)"
+    for st in split_statements(body):
+        m = re.match(r"^(?:const\s+)?[\w:<>]+\s+(\w+)\s*=\s*(?:%s)$" % END, st)
+        if m:
+            end_names.add(m.group(1))
+            continue
+        if st.startswith("for"):
+            head, inner = for_parts(st)
+            x, elem, others = loop_var(head, BEGIN, END, end_names)
+            if others:
+                raise TranslateError("loop increment not understood")
+            inner = [q for q in inner if not re.match(r"^assert\s*\(", q)]
+            if len(inner) != 1:
+                raise TranslateError("loop body has %d statements" % len(inner))
+            q = re.sub(r"%s\s*local\s*\(\s*\)(?:\s*\.\s*local\s*\(\s*\))?" % elem, " locNo ", inner[0])
+            q = re.sub(r"static_cast\s*<[^>]*>", "", q)
+            m1 = re.match(r"^size_\s*=\s*(?:std\s*::\s*)?max\s*(?:<[^>]*>)?\s*\((.+)\)$", q)
+            m2 = re.match(r"^indices_\s*\[(.+)\]\s*=\s*(.+)$", q)
+            if m1 and fold is None and cells is None and slot is None and cur == "size":
+                a = split_params(m1.group(1))
+                if len(a) != 2:
+                    raise TranslateError("max with %d arguments" % len(a))
+                a = [z.strip() for z in a]
+                if a[0] == "size_":
+                    other = a[1]
+                elif a[1] == "size_":
+                    other = a[0]
+                else:
+                    raise TranslateError("max does not accumulate into size_")
+                fold = canon_i(other, "locNo", grid(locNo=range(0, 5)))
+            elif m2 and slot is None and cells is not None:
+                tgt = m2.group(2).strip()
+                if ";" in head:
+                    okt = re.match(r"^(?:&\s*\(\s*\*\s*%s\s*\)|&\s*\*\s*%s|std\s*::\s*addressof\s*\(\s*\*\s*%s\s*\)|%s\s*\.\s*operator\s*->\s*\(\s*\))$" % (x, x, x, x), tgt)
+                else:
+                    okt = re.match(r"^(?:&\s*%s|std\s*::\s*addressof\s*\(\s*%s\s*\))$" % (x, x), tgt)
+                if not okt:
+                    raise TranslateError("stored pointer not understood: %r" % tgt)
+                slot = canon_i(m2.group(1), "locNo", grid(locNo=range(0, 5)))
+            else:
+                raise TranslateError("loop statement not understood: %r" % q[:50])
+            continue
+        m = re.match(r"^indices_\s*\.\s*(?:resize|assign)\s*\((.+)\)$", st)
+        if m and cells is None and slot is None:
+            a = [z.strip() for z in split_params(m.group(1))]
+            if len(a) == 2 and not re.match(r"^%s$" % NULLPTR, a[1]):
+                raise TranslateError("cells are not initialised with null")
+            if len(a) not in (1, 2):
+                raise TranslateError("resize not understood")
+            arg = a[0]
+            if re.match(r"^\+\+\s*size_$", arg):
+                cur = "(%s+1)" % cur
+                cells = cur
+            elif re.match(r"^size_\s*\+\+$", arg):
+                cells = cur
+                cur = "(%s+1)" % cur
+            else:
+                cells = re.sub(r"\bsize_\b", " " + cur + " ", arg)
+            continue
+        m = re.match(r"^(?:\+\+\s*size_|size_\s*\+\+)$", st)
+        m2 = re.match(r"^size_\s*\+=\s*(\d+)$", st) or re.match(r"^size_\s*=\s*size_\s*\+\s*(\d+)$", st)
+        if m or m2:
+            if fold is None and nparams == 1:
+                raise TranslateError("size_ changed before the maximum is known")
+            cur = "(%s+%d)" % (cur, 1 if m else int(m2.group(1)))
+            continue
+        raise TranslateError("statement not understood: %r" % st[:50])
+    if cells is None or slot is None:
+        raise TranslateError("table is not allocated/filled")
+    g = grid(size=range(0, 6))
+    want_cells = "size" if nparams == 2 else "size+1"
+    return "some { sizeInit := %s, foldMax := %s, cells := %s, sizeFinal := %s, slot := %s }" % (
+        size_init, ("some " + fold) if fold else "none", canon_i(cells, want_cells, g), canon_i(cur, want_cells, g), slot)
+
+
 # ------------------------------------------------------------------------------------------------
 def translate(repo):
     try:
@@ -714,6 +1005,20 @@ def translate(repo):
             canonical_search("exists"))
     o.piece("search_get", "Search", lambda: lean_search(search_of(method(r"operator\s*\[\s*\]", 1, const=False))),
             canonical_search("get"))
+
+
+    # ---- round four: statement order of endResize(), the loop of renumberLocal(), the GlobalLookupIndexSet constructors.
+    # These pieces are LOUD: when the source leaves the grammar, `.unknown` / `none` is emitted and the theorem about the
+    # piece no longer compiles (broken obligation => the run searches for a failing input).
+    o.loud("endResizeCalls", "List Call", lambda: calls_of_endresize(method("endResize", 0)), "[.sortNew, .merge]", "[.unknown]")
+    o.loud("renumber", "Option Renum", lambda: renumber_of(method("renumberLocal", 0)),
+           "some { start := 0, step := 1, value := (.var .index) }", "none")
+    o.loud("tableAuto", "Option TableCtor", lambda: table_ctor_of(src, 1),
+           "some { sizeInit := (.num 0), foldMax := some (.var .locNo), cells := (.add (.var .size) (.num 1)), "
+           "sizeFinal := (.add (.var .size) (.num 1)), slot := (.var .locNo) }", "none")
+    o.loud("tableSized", "Option TableCtor", lambda: table_ctor_of(src, 2),
+           "some { sizeInit := (.var .tsize), foldMax := none, cells := (.var .size), sizeFinal := (.var .size), slot := (.var .locNo) }",
+           "none")
 
     hdr = ("/- GENERATED by tools/translators/tr_c03.py from dune/common/parallel/indexset.hh and plocalindex.hh — do not edit.\n"
            "   Pieces that agree with their canonical form on the translator's grid are emitted in canonical form. -/\n"
